@@ -37,6 +37,8 @@ def trM : Nat → Val → Option Val
   | 9, .struct [v] => some v
   | 10, .byteArr b => some (.str b)
   | 11, .struct [.str a, .str b] => some (.str (a ++ [30] ++ b))
+  | 12, .struct [x, y] => some (.struct [x, y])
+  | 13, .str s => some (.str ([99, 47] ++ s))
   | _, _ => none
 
 def trU : Nat → Val → Option Val
@@ -51,6 +53,8 @@ def trU : Nat → Val → Option Val
   | 9, v => some (.struct [v])
   | 10, .str s => if s.length == 4 then some (.byteArr s) else none
   | 11, .str s => (splitAt 30 s []).map fun (a, b) => .struct [.str a, .str b]
+  | 12, .struct [x, y] => some (.struct [x, y])
+  | 13, .str s => (match s with | 99 :: 47 :: rest => some (.str rest) | _ => none)
   | _, _ => none
 
 def trLib : Trs := ⟨trM, trU⟩
